@@ -1,6 +1,6 @@
 //! storesim (C12): writer -> simulated byte store with a fault injector -> reader under catch_unwind.
 
-use crate::dsl::es;
+use crate::dsl::{es, Step};
 use crate::exec::{compile_case, CompileOutcome};
 use crate::gen::{gen_case, GenCfg};
 use crate::harness::{run_cases, write_evidence, write_replay, Args, EvidenceOut, Tier};
@@ -267,9 +267,55 @@ pub fn write_context(rng: &mut Rng) -> Option<Written> {
             });
         }
     }
-    let stage = rng.weighted(&[3, 2, 2, 2, 3, 1, 2]);
+    // constants of container types (vector / tuple / named tuple of arrays), left dangling in the main graph
+    if rng.chance(1, 3) {
+        use ciphercore_base::data_types::{named_tuple_type, tuple_type, vector_type};
+        let g = case.prog.main_mut();
+        for _ in 0..1 + rng.usize_below(2) {
+            let et = crate::gen::mk_type(&crate::gen::pick_shape(4, rng), crate::gen::ALL_ST[rng.usize_below(11)]);
+            let t = match rng.below(4) {
+                0 => vector_type(1 + rng.below(4), et),
+                1 => tuple_type(vec![et.clone(), vector_type(2 + rng.below(2), et)]),
+                2 => named_tuple_type(vec![("a".to_string(), et.clone()), ("b".to_string(), vector_type(3, et))]),
+                _ => vector_type(2, tuple_type(vec![et.clone(), et])),
+            };
+            let v = crate::vals::random_value(&t, rng);
+            g.steps.push(Step { op: Operation::Constant(t, v), deps: vec![], gdeps: vec![] });
+        }
+    }
+    let stage = rng.weighted(&[3, 2, 2, 2, 3, 1, 2, 1]);
     if stage == 6 {
         return custom_op_zoo(rng);
+    }
+    if stage == 7 {
+        // a caller graph created BEFORE its callee (graph ids out of creation order). The API refuses the call (callees
+        // must be older); should it ever accept it, the resulting context must still survive a round trip.
+        let ctx = ciphercore_base::graphs::create_context().ok()?;
+        let caller = ctx.create_graph().ok()?;
+        let callee = ctx.create_graph().ok()?;
+        let t = crate::gen::mk_type(&crate::gen::pick_shape(8, rng), crate::gen::ALL_ST[rng.usize_below(11)]);
+        let a = callee.input(t.clone()).ok()?;
+        callee.set_output_node(callee.add(a.clone(), a).ok()?).ok()?;
+        callee.finalize().ok()?;
+        let x = caller.input(t).ok()?;
+        return match caller.call(callee.clone(), vec![x.clone()]) {
+            Ok(r) => {
+                caller.set_output_node(r).ok()?;
+                caller.finalize().ok()?;
+                ctx.set_main_graph(caller).ok()?;
+                ctx.finalize().ok()?;
+                Some(Written { ctx, stage: "caller-older-than-callee" })
+            }
+            Err(_) => {
+                // the usual outcome: finish the context in the legal order instead (callee first is impossible now, so
+                // the caller simply does not call)
+                caller.set_output_node(x).ok()?;
+                caller.finalize().ok()?;
+                ctx.set_main_graph(caller).ok()?;
+                ctx.finalize().ok()?;
+                Some(Written { ctx, stage: "two-graphs-no-call" })
+            }
+        };
     }
     match stage {
         0 => Some(Written { ctx: case.prog.build().ok()?.context, stage: "plain" }),
@@ -556,7 +602,69 @@ fn mutate_here(v: &mut serde_json::Value, rng: &mut Rng) {
 fn targeted(inner: &mut serde_json::Value, rng: &mut Rng) -> Option<&'static str> {
     let big = *rng.pick(&[1u64, 2, 7, 1000, u64::MAX, 1 << 40]);
     let ngraphs = inner.get("graphs")?.as_array()?.len() as u64;
-    match rng.below(9) {
+    match rng.below(11) {
+        9 | 10 => {
+            // the declared type of a constant no longer matches its stored value: a vector length or an array
+            // dimension inside the type of a Constant operation is changed by one
+            fn constant_types<'a>(v: &'a mut serde_json::Value, out: &mut Vec<&'a mut serde_json::Value>) {
+                match v {
+                    serde_json::Value::Object(o) => {
+                        for (k, c) in o.iter_mut() {
+                            if k == "Constant" {
+                                if let serde_json::Value::Array(a) = c {
+                                    if a.len() == 2 {
+                                        if let Some(t) = a.get_mut(0) {
+                                            out.push(t);
+                                        }
+                                        continue;
+                                    }
+                                }
+                            } else {
+                                constant_types(c, out);
+                            }
+                        }
+                    }
+                    serde_json::Value::Array(a) => {
+                        for c in a.iter_mut() {
+                            constant_types(c, out);
+                        }
+                    }
+                    _ => {}
+                }
+            }
+            fn numbers<'a>(v: &'a mut serde_json::Value, out: &mut Vec<&'a mut serde_json::Value>) {
+                match v {
+                    serde_json::Value::Number(_) => out.push(v),
+                    serde_json::Value::Array(a) => {
+                        for c in a.iter_mut() {
+                            numbers(c, out);
+                        }
+                    }
+                    serde_json::Value::Object(o) => {
+                        for (_, c) in o.iter_mut() {
+                            numbers(c, out);
+                        }
+                    }
+                    _ => {}
+                }
+            }
+            let mut cts = vec![];
+            constant_types(inner, &mut cts);
+            if cts.is_empty() {
+                return None;
+            }
+            let k = rng.usize_below(cts.len());
+            let t = cts.swap_remove(k);
+            let mut nums = vec![];
+            numbers(t, &mut nums);
+            if nums.is_empty() {
+                return None;
+            }
+            let k = rng.usize_below(nums.len());
+            let cur = nums[k].as_u64()?;
+            *nums[k] = serde_json::json!(if cur > 0 && rng.chance(1, 2) { cur - 1 } else { cur + 1 });
+            Some("constant-type-shape")
+        }
         0 => {
             inner["main_graph"] = serde_json::json!(ngraphs + big.min(u64::MAX - ngraphs));
             Some("main-graph-out-of-range")
@@ -855,7 +963,7 @@ pub fn store_case(args: &Args, idx: usize, faults_per_case: usize, exhaustive_li
         out.reads += 1;
         *out.counts.entry(format!("fault:{}", tag)).or_insert(0) += 1;
         // faults whose result must be rejected (wrong version, broken payload, out-of-range ids, dangling dependencies)
-        let must_reject = tag.starts_with("structured:wrong-version") || tag.starts_with("structured:bad-payload") || tag.starts_with("structured:inner-truncated") || tag.starts_with("structured:targeted:");
+        let must_reject = tag.starts_with("structured:wrong-version") || tag.starts_with("structured:bad-payload") || tag.starts_with("structured:inner-truncated") || (tag.starts_with("structured:targeted:") && tag != "structured:targeted:constant-type-shape");
         if must_reject {
             let text = String::from_utf8_lossy(&corrupted).to_string();
             if !has_oversized_custom_parameter(&text) {
